@@ -436,4 +436,53 @@ theorem C19_odd_symmetry (x : Rat) (d : Int) :
 
 example : round_ (-(5/2 : Rat)) 0 = -3 ∧ round_ (5/2 : Rat) 0 = 3 := by decide +kernel
 
+/-! ## monotonicity (added) -/
+/-- **C19 (monotone)**: ROUNDDOWN/TRUNC never reorders two numbers: x ≤ y → ROUNDDOWN(x,d) ≤ ROUNDDOWN(y,d). -/
+theorem C19_rounddown_mono (x y : Rat) (d : Int) (hxy : x ≤ y) : rounddown x d ≤ rounddown y d := by
+  have hu := unit_pos d
+  simp only [rounddown, pyTrunc_int]
+  by_cases hx : 0 ≤ x
+  · exact roundDown_mono_nonneg _ x y hu hx hxy
+  · by_cases hy : 0 ≤ y
+    · -- x < 0 ≤ y : results on either side of zero
+      obtain ⟨n, hn0, hn, _, _⟩ := roundDown_spec (unit d) x hu
+      obtain ⟨m, hm0, hm, _, _⟩ := roundDown_spec (unit d) y hu
+      have p1 := mul_unit_nonneg hn0 hu
+      have p2 := mul_unit_nonneg hm0 hu
+      rw [hn, hm]; unfold withSign; simp only [hx, hy, ↓reduceIte]; grind
+    · -- both negative: use the nonnegative case on the negations and odd symmetry
+      have h1 := roundDown_mono_nonneg (unit d) (-y) (-x) hu (by grind) (by grind)
+      have sx := (C19_odd_symmetry x d).2.1
+      have sy := (C19_odd_symmetry y d).2.1
+      simp only [rounddown, pyTrunc_int] at sx sy
+      rw [sx, sy] at h1; grind
+
+/-- **C19 (monotone)**: ROUND and ROUNDUP never reorder two numbers either. -/
+theorem C19_round_mono (x y : Rat) (d : Int) (hxy : x ≤ y) :
+    round_ x d ≤ round_ y d ∧ roundup x d ≤ roundup y d := by
+  have hu := unit_pos d
+  simp only [round_, roundup, pyTrunc_int]
+  by_cases hx : 0 ≤ x
+  · exact ⟨roundHalfAway_mono_nonneg _ x y hu hx hxy, roundUp_mono_nonneg _ x y hu hx hxy⟩
+  · by_cases hy : 0 ≤ y
+    · obtain ⟨n, hn0, hn, _, _⟩ := roundHalfAway_spec (unit d) x hu
+      obtain ⟨m, hm0, hm, _, _⟩ := roundHalfAway_spec (unit d) y hu
+      obtain ⟨n', hn0', hn', _, _⟩ := roundUp_spec (unit d) x hu
+      obtain ⟨m', hm0', hm', _, _⟩ := roundUp_spec (unit d) y hu
+      have p1 := mul_unit_nonneg hn0 hu
+      have p2 := mul_unit_nonneg hm0 hu
+      have p3 := mul_unit_nonneg hn0' hu
+      have p4 := mul_unit_nonneg hm0' hu
+      rw [hn, hm, hn', hm']; unfold withSign; simp only [hx, hy, ↓reduceIte]
+      constructor <;> grind
+    · have h1 := roundHalfAway_mono_nonneg (unit d) (-y) (-x) hu (by grind) (by grind)
+      have h2 := roundUp_mono_nonneg (unit d) (-y) (-x) hu (by grind) (by grind)
+      have sx := C19_odd_symmetry x d
+      have sy := C19_odd_symmetry y d
+      simp only [round_, roundup, rounddown, trunc, pyTrunc_int] at sx sy
+      rw [sx.1, sy.1] at h1; rw [sx.2.2.1, sy.2.2.1] at h2
+      constructor <;> grind
+
+example : rounddown (-(7/2 : Rat)) (0 : Int) ≤ rounddown (5/2 : Rat) (0 : Int) := by decide +kernel
+
 end Pycel.Rounding
